@@ -445,6 +445,13 @@ L_SYMBOL = norm("""for (unsigned i = 0; i < symbols.size(); ++i) { if (eq(x, *sy
  T *cse_intermediate_result = &(cse_intermediate_results[index]);
  result_ = [=](const T *x) { return *cse_intermediate_result; }; return; }
  throw SymEngineException("Symbol not in the symbols vector.");""")
+L_SYMBOL_MAP_FIRST = norm("""auto it = cse_intermediate_fns_map.find(x.rcp_from_this());
+ if (it != cse_intermediate_fns_map.end()) { auto index = it->second;
+ T *cse_intermediate_result = &(cse_intermediate_results[index]);
+ result_ = [=](const T *x) { return *cse_intermediate_result; }; return; }
+ for (unsigned i = 0; i < symbols.size(); ++i) { if (eq(x, *symbols[i])) {
+ result_ = [=](const T *x) { return x[i]; }; return; } }
+ throw SymEngineException("Symbol not in the symbols vector.");""")
 L_INFTY = norm("""if (x.is_negative_infinity()) { result_ = [=](const double * ) {
  return -std::numeric_limits<double>::infinity(); }; } else if (x.is_positive_infinity()) {
  result_ = [=](const double * ) { return std::numeric_limits<double>::infinity(); }; } else {
@@ -524,7 +531,9 @@ def lambda_rule(cls, body):
     if m:
         return "RFoldFirst %s %s" % ("BMax" if m.group(2) == "max" else "BMin", m.group(1))
     if b == L_SYMBOL:
-        return "RSymbol"
+        return "RSymbol false"
+    if b == L_SYMBOL_MAP_FIRST:
+        return "RSymbol true"
     if b == L_INFTY:
         return "RInfty"
     if b == L_NAN:
